@@ -133,6 +133,7 @@ def schema_facts(s, std="c++17", asserts=True, all_cursor_kinds=True, arrays=Tru
                 extract(src, lib_flags(std, asserts) + ["-I" + root],
                         [os.path.join(REPO, "sbepp"), root, HARNESS_DIR], tmp, no_patterns=False)
                 os.rename(tmp, out)
+                prune_files(d, "schema-", 90)
     data = json.load(open(out))
     if data.get("errors"):
         raise AnalysisBroken("harness TU of %s does not compile (%s errors)" % (s.name, data["errors"]))
